@@ -52,7 +52,9 @@ THEOREMS = ["Persist.time_string_roundtrip", "Persist.time_string_fraction_iff",
             "Persist.writeAsciiG_with_id", "Persist.append_concat_any", "Persist.region_dict_roundtrip",
             "Persist.region_dict_fixpoint", "Persist.region_name_survives_iff", "Persist.dict_roundtrip_concrete",
             "Persist.dict_roundtrip_bins_identically", "Persist.empty_catalog_region_survives",
-            "Persist.class_id_defaults_to_cartesian", "Persist.finding_quadtree_form_loses_region"]
+            "Persist.class_id_defaults_to_cartesian", "Persist.finding_quadtree_form_loses_region",
+            # phase 2
+            "Persist.dataframe_dt_roundtrip", "Persist.frame_labels_irrelevant", "Persist.label_lookup_not_scalar"]
 TRUSTED = ["Lean 4.33 kernel", "axioms: propext, Classical.choice, Quot.sound at most",
            "float text codec str(numpy.float64(x)) / float(text) is the identity on finite doubles "
            "(hypothesis of the theorems; checked bitwise on every float cell the harness sees)",
@@ -85,17 +87,20 @@ RULE = ("catalogs of 0..40 events (sizes 0, 1, 2, 40 always present) built with 
         "reloaded region must put every probe point (events, cell centres and quarter points, points outside) into "
         "the same cell as the original, per-cell counts against the model; hand-edited region dicts (class_id missing / "
         "None / unknown, region None, quadtree-like form, missing dh / polygons / name) against the model of the "
-        "region branch of from_dict (recorded below the property level); append pairs with an empty first catalog.")
+        "region branch of from_dict (recorded below the property level); append pairs with an empty first catalog. "
+        "Phase 2: events sharing an origin time (duplicated labels of the datetime index, also at the head); every "
+        "stored form (dict, frame, file) used twice and fingerprinted before/after loading; sessions of two catalog "
+        "objects over shared file paths (write, load, append, edit the returned dict in place, serialise again); ASCII "
+        "and JSON loaded through every documented entry point; NaN / infinite depths; structured arrays in non-native "
+        "byte order; catalogs bound to a QuadtreeGrid2D (known finding D43); one catalog with more than 2^16 events.")
 
 # sub-classes on which the UNCHANGED pyCSEP contradicts the property: generated only once a decision (fix or known
 # finding) has removed them from this list; see notes/C14.md "Awaiting decision"
-AWAITING_DECISION = [     # "numpy-integer catalog_id through JSON" was fixed in /repo (D31, 532c783)
-    # GENUINE-DEFECT CANDIDATE (round 4): a catalog bound to a QuadtreeGrid2D comes back from to_dict/from_dict and
-    # write_json/load_json WITHOUT region, silently (QuadtreeGrid2D.to_dict has neither 'dh' nor 'class_id'; from_dict
-    # takes it for a CartesianGrid2D, the AttributeError 'cannot create region without dh' is swallowed).
-    # Lean: Persist.finding_quadtree_form_loses_region. Generated only once this entry is removed.
-    "quadtree region through dict/JSON",
-]
+AWAITING_DECISION = []
+# "numpy-integer catalog_id through JSON" was fixed in /repo (D31, 532c783). "quadtree region through dict/JSON" is the
+# KNOWN FINDING D43 (known_findings.json, signature below): catalogs bound to a QuadtreeGrid2D are generated and the loss of
+# the region through dict / JSON is reported through run.oracle_failure(..., signature=QUADTREE_SIG) -> KNOWN-FINDING line.
+QUADTREE_SIG = "quadtree-region-through-dict"
 
 # ---- the process's local time zone must not matter (stored times are UTC epoch milliseconds)
 ZONES = [None, "Asia/Tokyo", "America/Los_Angeles", None, "Europe/London", "JST-9", "PST8PDT,M3.2.0,M11.1.0",
@@ -177,11 +182,15 @@ def exc_tok(e):
 def events_of(cat):
     """events of a CSEPCatalog in dtype order as Python values (id decoded, ms int, four floats)"""
     out = []
-    for rec in cat.catalog.tolist():
+    data = cat.catalog
+    if data is None:                 # a catalog object without event array: no events (reported by the comparison)
+        return out
+    for rec in data.tolist():
         i = rec[0]
         if isinstance(i, bytes):
             i = i.decode("utf-8")
-        out.append((i, int(rec[1]), float(rec[2]), float(rec[3]), float(rec[4]), float(rec[5])))
+        out.append((i if isinstance(i, str) else repr(i), int(rec[1]), float(rec[2]), float(rec[3]), float(rec[4]),
+                    float(rec[5])))
     return out
 
 
@@ -217,6 +226,22 @@ def build_region(rs):
     return CartesianGrid2D.from_origins(origins, dh=dh, magnitudes=mags, name=rs.get("name"))
 
 
+def spec_events(spec):
+    """the events of a spec; `tile` = n: the listed events repeated up to n events with ids e0, e1, … and times
+    shifted by the event number (catalogs with more than 2^16 events at the cost of a short spec)"""
+    evs = spec["events"]
+    n = spec.get("tile")
+    if not n or not evs:
+        return evs
+    out = []
+    for k in range(n):
+        e = list(evs[k % len(evs)])
+        e[0] = f"e{k}".encode("ascii").hex()
+        e[1] = int(e[1]) + (k // len(evs))
+        out.append(e)
+    return out
+
+
 def build_catid(spec):
     """the catalog id of a spec: a Python int / None, or (spec['catalog_id_np'] = numpy type name) a numpy integer"""
     cid = spec["catalog_id"]
@@ -230,7 +255,7 @@ def build(spec, with_region=True):
     """the catalog as the user hands it over: a list of tuples (default), a list of lists, a mixture, or a structured
     array of the catalog dtype (round 4: the branches of _get_catalog_as_ndarray, catalogs.py:284-293)"""
     from csep.core.catalogs import CSEPCatalog
-    data = [event_of_spec(s) for s in spec["events"]]
+    data = [event_of_spec(s) for s in spec_events(spec)]
     kind = spec.get("data_kind")
     if kind == "lists":
         data = [list(e) for e in data]
@@ -239,6 +264,9 @@ def build(spec, with_region=True):
     elif kind == "ndarray":
         import numpy
         data = numpy.array(data, dtype=CSEPCatalog.dtype)
+    elif kind == "ndarray-be":       # non-native byte order of the numeric columns ('>i8', '>f8'), as read from binary files
+        import numpy
+        data = numpy.array(data, dtype=CSEPCatalog.dtype.newbyteorder(">"))
     return CSEPCatalog(data=data, catalog_id=build_catid(spec),
                        name=spec["name"], region=build_region(spec["region"]) if with_region else None)
 
@@ -247,7 +275,7 @@ def check_construction(ctx, case):
     """what the constructor stores is what was handed over (ids cut to the 256 bytes of the dtype), whatever container
     the events came in"""
     spec = case["cat"]
-    want = [(e[0][:256],) + e[1:] for e in (event_of_spec(s) for s in spec["events"])]
+    want = [(e[0][:256],) + e[1:] for e in (event_of_spec(s) for s in spec_events(spec))]
     fails = []
     compare_events(f"construction from {spec.get('data_kind') or 'tuples'}", want, events_of(build(spec, with_region=False)), fails)
     ctx.run.case(summary(case), None)
@@ -359,6 +387,12 @@ class Ctx:
 
     # -- correspondence
     def ask(self, line, expected, case):
+        if "nonfinite" in line or "nonfinite" in str(expected):
+            self.run.count("model skipped: non-finite value (direct oracle only)")
+            return
+        if len(line) > 300000:
+            self.run.count("model skipped: catalog too large for one driver line (direct oracle only)")
+            return
         if not self.probe:
             self.pending.append((self.drv.ask(line), expected, case))
 
@@ -390,10 +424,14 @@ class Ctx:
         r.extra["events_compared_fieldwise"] = self.n_events
 
     # -- oracle
-    def fail(self, case, detail, k=None):
-        """the real round trip contradicts the property on `case`; `k` = index of the offending event (if one)"""
+    def fail(self, case, detail, k=None, signature=None):
+        """the real round trip contradicts the property on `case`; `k` = index of the offending event (if one);
+        `signature` = the signature of a known finding (printed as KNOWN-FINDING, exit code unaffected)"""
         if self.probe:
             self.failures.append(detail)
+            return
+        if signature is not None:
+            self.run.oracle_failure(case, detail, signature=signature)
             return
         evs = case["cat"]["events"]
         if k is not None and "cat2" not in case and len(evs) > 1 and k < len(evs) and self.shrinks < MAX_SHRINKS:
@@ -449,6 +487,21 @@ def compare_events(what, ref, got, fails):
                 fails.append((f"{what}: {names[j]} of event {k}: {a[j]!r} ({a[j].hex()}) -> {b[j]!r} ({b[j].hex()})", k))
 
 
+def same_events(a, b):
+    """count, order, ids, times equal and the four floats bitwise equal (NaN equals NaN)"""
+    tmp = []
+    compare_events("", a, b, tmp)
+    return not tmp
+
+
+def frame_fingerprint(df):
+    """columns, index labels and values of a data frame as text (dtype / byte-order representation does not count)"""
+    if len(df) > 5000:
+        return (list(map(str, df.columns)), len(df))
+    return (list(map(str, df.columns)), [str(i) for i in df.index],
+            [[repr(v) for v in df[c].tolist()] for c in df.columns])
+
+
 def compare_catid(what, want, got, fails):
     if not (is_int(got) and int(got) == want):
         fails.append((f"{what}: catalog_id {want!r} -> {got!r} ({type(got).__name__})", 0))
@@ -493,14 +546,30 @@ def written_file(ctx, path, ref, old_rows, fails):
     return rows, rows_tok(rows)
 
 
-def load_ascii(path):
-    """csep.load_catalog on a CSEP ASCII file -> (catalog or None, canonical response for c14_read, exception)"""
+ASCII_VIAS = ["default", "type", "format-csep", "loader", "class"]
+
+
+def load_ascii(path, via="default"):
+    """load a CSEP ASCII file through one of the documented entry points -> (catalog or None, canonical response for
+    c14_read, exception)"""
     import csep
     try:
-        cat = csep.load_catalog(path)
+        if via == "type":
+            cat = csep.load_catalog(path, type="csep-csv", format="native")
+        elif via == "format-csep":
+            cat = csep.load_catalog(path, format="csep")
+        elif via == "loader":
+            from csep.utils import readers
+            cat = csep.load_catalog(path, loader=readers.csep_ascii)
+        elif via == "class":
+            from csep.core.catalogs import CSEPCatalog
+            cat = CSEPCatalog.load_catalog(path)
+        else:
+            cat = csep.load_catalog(path)
+        resp = f"ok {catid_tok(cat.catalog_id)} {events_tok(events_of(cat))}"
     except Exception as e:
         return None, exc_tok(e), e
-    return cat, f"ok {catid_tok(cat.catalog_id)} {events_tok(events_of(cat))}", None
+    return cat, resp, None
 
 
 def check_ascii(ctx, case):
@@ -531,9 +600,17 @@ def check_ascii(ctx, case):
             ctx.ask(f"c14_writeg {int(hdr)} {int(emp)} 0 {catid_tok(spec['catalog_id'])} {events_tok(ref)} - 0", recs, case)
         else:
             ctx.ask(f"c14_write {int(hdr)} {int(emp)} 0 {catid_tok(spec['catalog_id'])} {events_tok(ref)} -", recs, case)
-    loaded, resp, exc = load_ascii(path)
+    via = o.get("via", "default")
+    branches.append(f"ascii:load via {via}")
+    loaded, resp, exc = load_ascii(path, via)
     if recs is not None:
         ctx.ask(f"c14_read {recs}", resp, case)
+    if loaded is not None and o.get("load_twice"):
+        # the file is the stored form: a second load (after another file was read in between) gives the same catalog
+        again, resp2, exc2 = load_ascii(path, "default")
+        if resp2 != resp:
+            fails.append((f"ascii round trip: the second load of the same file gives {_clip(resp2, 200)}, the first "
+                          f"{_clip(resp, 200)}", None))
     if loaded is None:
         fails.append((f"ascii round trip: load_catalog raised {type(exc).__name__}: {exc}", None))
     else:
@@ -613,6 +690,9 @@ def compare_region(what, region, got, fails):
     if region is None:
         if got is not None:
             fails.append((f"{what}: region None -> {type(got).__name__}", None))
+        return
+    if got is None and hasattr(region, "quadkeys"):
+        fails.append((f"{what}: region {type(region).__name__} -> {type(got).__name__}", None, QUADTREE_SIG))
         return
     if got is None or type(got) is not type(region):
         fails.append((f"{what}: region {type(region).__name__} -> {type(got).__name__}", None))
@@ -740,11 +820,28 @@ def check_regiondict(ctx, case):
     ctx.run.count(f"regiondict:{variant} -> {resp.split(' ', 1)[0]}")
 
 
+def dict_fingerprint(d):
+    """a dict form as canonical text (what json would write, numpy scalars as numbers, anything else through repr)"""
+    import numpy
+    return json.dumps(d, sort_keys=True, default=lambda o: o.item() if isinstance(o, numpy.generic) else repr(o))
+
+
+def report(ctx, case, fails):
+    """first failure that is not a known finding, else the first known finding"""
+    if fails:
+        plain = [f for f in fails if len(f) < 3]
+        f = plain[0] if plain else fails[0]
+        ctx.fail(case, f[0], f[1] if len(f) > 1 else None, signature=(f[2] if len(f) > 2 else None))
+
+
 def check_dict(ctx, case):
     """fmt 'dict': to_dict -> from_dict; fmt 'json': write_json -> load_json (opts.via = 'load_json') or
-    csep.load_catalog('x.json') (opts.via = 'load_catalog')"""
+    csep.load_catalog('x.json') (opts.via = 'load_catalog'). Phase 2: the stored form is used AGAIN — the same dict is
+    loaded a second time and dumped to JSON, the same file is loaded a second time — and must neither have changed nor
+    give another catalog; the original catalog object is as it was."""
     from csep.core.catalogs import CSEPCatalog
     import csep
+    import numpy
     spec, fmt = case["cat"], case["fmt"]
     via = (case.get("opts") or {}).get("via", "load_json")
     cat = build(spec)
@@ -752,78 +849,233 @@ def check_dict(ctx, case):
     what = f"{fmt} round trip"
     fails = []
     branches = [f"{fmt}:region={'yes' if spec['region'] else 'no'}", f"{fmt}:name={'None' if spec['name'] is None else 'str'}"]
+    loads = []          # (label, loaded catalog)
     try:
         if fmt == "dict":
-            loaded = CSEPCatalog.from_dict(cat.to_dict())
+            d = cat.to_dict()
+            before = dict_fingerprint(d)
+            loads.append((what, CSEPCatalog.from_dict(d)))
+            if dict_fingerprint(d) != before:
+                fails.append((f"{what}: from_dict changed the dict it was given (keys now {sorted(d)})", None))
+            loads.append((f"{what} (second load of the same dict)", CSEPCatalog.from_dict(d)))
+            if len(ref) <= 200:
+                # the dict is the serialised form: it can be written as JSON by the caller and loaded from there
+                path = ctx.path("json")
+                with open(path, "w") as f:
+                    json.dump(d, f, default=lambda o: o.item() if isinstance(o, numpy.generic) else str(o))
+                loads.append((f"{what} (dict -> json.dump -> load_json)", CSEPCatalog.load_json(path)))
+                os.unlink(path)
         else:
             path = ctx.path("json")
             cat.write_json(path)
-            loaded = CSEPCatalog.load_json(path) if via == "load_json" else csep.load_catalog(path)
+            loads.append((what, CSEPCatalog.load_json(path) if via == "load_json" else csep.load_catalog(path)))
+            loads.append((f"{what} (second load of the same file)",
+                          csep.load_catalog(path, format="csep") if via == "load_json" else CSEPCatalog.load_json(path)))
             os.unlink(path)
             branches.append(f"json:via={via}")
     except Exception as e:
         ctx.fail(case, f"{what}: raised {type(e).__name__}: {e}")
         ctx.account(case, *branches)
         return
-    got = events_of(loaded)
-    ctx.n_events += len(ref)
-    compare_events(what, ref, got, fails)
     cid = spec["catalog_id"]
     if cid is None:
         branches.append(f"{fmt}:catalog_id None (model only)")
-    else:
-        compare_catid(what, cid, loaded.catalog_id, fails)
-    if not (loaded.name == spec["name"] and type(loaded.name) is type(spec["name"])):
-        fails.append((f"{what}: name {spec['name']!r} -> {loaded.name!r}", None))
-    compare_region(what, cat.region, loaded.region, fails)
-    check_region_forms(ctx, case, cat, loaded, ref, fails)
-    ctx.ask(f"c14_dict_rt {catid_tok(cid)} {events_tok(ref)}", f"{catid_tok(loaded.catalog_id)} {events_tok(got)}", case)
-    if fails:
-        ctx.fail(case, *fails[0])
+    for label, loaded in loads:
+        try:
+            got = events_of(loaded)
+            ctx.n_events += len(ref)
+            compare_events(label, ref, got, fails)
+            if cid is not None:
+                compare_catid(label, cid, loaded.catalog_id, fails)
+            if not (loaded.name == spec["name"] and type(loaded.name) is type(spec["name"])):
+                fails.append((f"{label}: name {spec['name']!r} -> {loaded.name!r}", None))
+            compare_region(label, cat.region, loaded.region, fails)
+        except Exception as e:       # a deviating output must be reported, not crash the harness
+            fails.append((f"{label}: the loaded catalog cannot be inspected: {type(e).__name__}: {e}", None))
+    if not same_events(events_of(cat), ref):
+        fails.append((f"{what}: serialising changed the original catalog object", None))
+    loaded = loads[0][1]
+    try:
+        check_region_forms(ctx, case, cat, loaded, ref, fails)
+        ctx.ask(f"c14_dict_rt {catid_tok(cid)} {events_tok(ref)}",
+                f"{catid_tok(loaded.catalog_id)} {events_tok(events_of(loaded))}", case)
+    except Exception as e:
+        fails.append((f"{what}: the loaded catalog cannot be inspected: {type(e).__name__}: {e}", None))
+    report(ctx, case, fails)
     ctx.account(case, *branches)
 
 
 # ------------------------------------------------------------------------------------------------ DataFrame
 def check_frame(ctx, case):
-    """to_dataframe -> from_dataframe. opts.with_region: the catalog keeps its region (the generator then placed the
-    events inside it; to_dataframe adds the region_id column and, when the region has magnitude bins, mag_id; a region
-    without magnitudes made to_dataframe raise IndexError before /repo commit bcf2967, see corpus/C14)."""
+    """to_dataframe -> from_dataframe, default frame and datetime-indexed frame (with_datetime=True: events sharing an
+    origin time give duplicated index labels). opts.with_region: the catalog keeps its region (the generator then placed
+    the events inside it; to_dataframe adds the region_id column and, when the region has magnitude bins, mag_id; a
+    region without magnitudes made to_dataframe raise IndexError before /repo commit bcf2967, see corpus/C14).
+    Phase 2: both frames are loaded TWICE and must not be changed by loading; count, order, fields AND the integer
+    catalog id are demanded of every load."""
     from csep.core.catalogs import CSEPCatalog
     spec = case["cat"]
-    with_region = bool((case.get("opts") or {}).get("with_region")) and spec["region"] is not None
+    with_region = bool((case.get("opts") or {}).get("with_region")) and spec["region"] is not None \
+        and not spec["region"].get("quadkeys")
     bare = with_region and spec["region"].get("magnitudes") is None
     cat = build(spec, with_region=with_region)
     ref = events_of(cat)
     fails = []
     branches = ["frame:region=" + ("no" if not with_region else "without magnitudes" if bare else "with magnitudes")]
-    try:
-        df = cat.to_dataframe()
-        loaded = CSEPCatalog.from_dataframe(df)
-    except Exception as e:
-        ctx.fail(case, f"frame round trip: raised {type(e).__name__}: {e}")
-        ctx.account(case, *branches)
-        return
-    got = events_of(loaded)
-    ctx.n_events += len(ref)
-    compare_events("frame round trip", ref, got, fails)
-    # the datetime-indexed form of the same frame must carry the same events in the same order
-    try:
-        loaded_dt = CSEPCatalog.from_dataframe(cat.to_dataframe(with_datetime=True))
-        compare_events("frame round trip (with_datetime=True)", ref, events_of(loaded_dt), fails)
-        branches.append("frame:with_datetime")
-    except Exception as e:
-        fails.append((f"frame round trip (with_datetime=True): raised {type(e).__name__}: {e}",))
     cid = spec["catalog_id"]
     if not ref:
         branches.append("frame:empty catalog (no row carries the id; id not demanded)")
     elif cid is None:
         branches.append("frame:catalog_id None (model only)")
-    else:
-        compare_catid("frame round trip", cid, loaded.catalog_id, fails)
-    ctx.ask(f"c14_frame_rt {catid_tok(cid)} {events_tok(ref)}", f"{catid_tok(loaded.catalog_id)} {events_tok(got)}", case)
-    if fails:
-        ctx.fail(case, *fails[0])
+    if len({e[1] for e in ref}) < len(ref):
+        branches.append("frame:events sharing an origin time (duplicated datetime index labels)"
+                        + (" at the head" if len(ref) > 1 and any(e[1] == ref[0][1] for e in ref[1:]) else ""))
+    first = None
+    for label, kw in (("frame round trip", {}), ("frame round trip (with_datetime=True)", dict(with_datetime=True))):
+        try:
+            df = cat.to_dataframe(**kw)
+            before = frame_fingerprint(df)
+            for nth in ("", ", second load of the same frame"):
+                loaded = CSEPCatalog.from_dataframe(df)
+                if first is None:
+                    first = loaded
+                got = events_of(loaded)
+                ctx.n_events += len(ref)
+                compare_events(label + nth, ref, got, fails)
+                if ref and cid is not None:
+                    compare_catid(label + nth, cid, loaded.catalog_id, fails)
+            if frame_fingerprint(df) != before:
+                fails.append((f"{label}: from_dataframe changed the frame it was given", None))
+            if kw:
+                # the datetime-indexed frame against the model: loaded catalog + number of rows carrying row 0's label
+                dup = int((df.index == df.index[0]).sum()) if len(df) else 0
+                ctx.ask(f"c14_frame_dt_rt {catid_tok(cid)} {events_tok(ref)}",
+                        f"{catid_tok(loaded.catalog_id)} {events_tok(got)} {dup}", case)
+            branches.append("frame:with_datetime" if kw else "frame:default index")
+        except Exception as e:
+            fails.append((f"{label}: raised {type(e).__name__}: {e}", None))
+    if not same_events(events_of(cat), ref):
+        fails.append(("frame round trip: to_dataframe changed the original catalog object", None))
+    if first is not None:
+        try:
+            ctx.ask(f"c14_frame_rt {catid_tok(cid)} {events_tok(ref)}",
+                    f"{catid_tok(first.catalog_id)} {events_tok(events_of(first))}", case)
+        except Exception as e:
+            fails.append((f"frame round trip: the loaded catalog cannot be inspected: {type(e).__name__}: {e}", None))
+    report(ctx, case, fails)
     ctx.account(case, *branches)
+
+
+# ------------------------------------------------------------------------------------------------ sessions
+SESSION_STEPS = ["write-ascii", "load-ascii", "write-json", "load-json", "to-dict", "load-dict", "edit-dict", "dump-dict",
+                 "to-frame", "load-frame", "to-frame-dt", "append-other"]
+
+
+def check_session(ctx, case):
+    """phase 2: two catalog objects A (cat) and B (cat2) live through a random sequence of steps [[which, step], ...]:
+    files, dicts and frames written earlier are loaded again later (after the other catalog went through the same code),
+    a dict returned by to_dict() is edited by the caller before the object is serialised again, one catalog is appended
+    to the other's file. After EVERY step: whatever was loaded equals the catalog it was written from (count, order,
+    fields, catalog id; name and region for dict / JSON), and both original objects are as they were."""
+    import numpy
+    import csep
+    from csep.core.catalogs import CSEPCatalog
+    specs = [case["cat"], case["cat2"]]
+    cats = [build(sp) for sp in specs]
+    refs = [events_of(c) for c in cats]
+    st = [dict(), dict()]          # per catalog: dict, frame
+    # ONE ascii path and ONE json path for the whole session: a later write replaces what an earlier one stored there, a
+    # load must return what the file holds NOW (a cache keyed by file name would return the earlier catalog)
+    slot = {"ascii-path": ctx.path("csv"), "json-path": ctx.path("json")}
+    fails = []
+
+    def verify(label, w, loaded, ref=None, full=False, idref="own"):
+        try:
+            compare_events(label, refs[w] if ref is None else ref, events_of(loaded), fails)
+            cid = specs[w]["catalog_id"] if idref == "own" else idref
+            if cid is not None and (refs[w] if ref is None else ref):
+                compare_catid(label, cid, loaded.catalog_id, fails)
+            if full:
+                if specs[w]["catalog_id"] is not None:
+                    compare_catid(label, specs[w]["catalog_id"], loaded.catalog_id, fails)
+                if not (loaded.name == specs[w]["name"] and type(loaded.name) is type(specs[w]["name"])):
+                    fails.append((f"{label}: name {specs[w]['name']!r} -> {loaded.name!r}", None))
+                compare_region(label, cats[w].region, loaded.region, fails)
+        except Exception as e:
+            fails.append((f"{label}: the loaded catalog cannot be inspected: {type(e).__name__}: {e}", None))
+
+    for k, (w, step) in enumerate(case["steps"]):
+        tag = f"session step {k} ({'AB'[w]}: {step})"
+        try:
+            if step == "write-ascii":
+                cats[w].write_ascii(slot["ascii-path"])
+                slot["ascii"] = (list(refs[w]), specs[w]["catalog_id"])
+            elif step == "load-ascii" and "ascii" in slot:
+                ref, cid = slot["ascii"]
+                verify(tag, w, csep.load_catalog(slot["ascii-path"]), ref=ref, idref=cid)
+            elif step == "append-other" and "ascii" in slot and slot["ascii"][0]:
+                ref, cid = slot["ascii"]
+                cats[w].write_ascii(slot["ascii-path"], write_header=False, append=True)
+                ref = ref + refs[w]
+                cid = specs[w]["catalog_id"] if refs[w] else cid
+                slot["ascii"] = (ref, cid)
+                verify(tag, w, csep.load_catalog(slot["ascii-path"]), ref=ref, idref=cid)
+            elif step == "write-json":
+                cats[w].write_json(slot["json-path"])
+                slot["json"] = w
+            elif step == "load-json" and "json" in slot:
+                verify(tag, slot["json"], CSEPCatalog.load_json(slot["json-path"]), full=True)
+            elif step == "to-dict":
+                st[w]["dict"] = cats[w].to_dict()
+            elif step == "load-dict" and "dict" in st[w]:
+                verify(tag, w, CSEPCatalog.from_dict(st[w]["dict"]), full=True)
+            elif step == "dump-dict" and "dict" in st[w] and len(refs[w]) <= 200:
+                p = ctx.path("json")
+                with open(p, "w") as f:
+                    json.dump(st[w]["dict"], f, default=lambda o: o.item() if isinstance(o, numpy.generic) else str(o))
+                verify(tag, w, CSEPCatalog.load_json(p), full=True)
+                os.unlink(p)
+            elif step == "edit-dict" and "dict" in st[w]:
+                # the caller edits the dict it got; the catalog object must not have handed out its own storage
+                d = st[w].pop("dict")
+                if isinstance(d.get("catalog"), list):       # in place: rows first, then the list itself
+                    for row in d["catalog"]:
+                        if isinstance(row, list) and len(row) > 1:
+                            row[1] = 0
+                    d["catalog"].clear()
+                d["catalog"] = []
+                d["name"] = "edited"
+                d["catalog_id"] = -12345
+                if isinstance(d.get("region"), dict):
+                    d["region"].clear()
+                verify(tag + ": to_dict() again", w, CSEPCatalog.from_dict(cats[w].to_dict()), full=True)
+            elif step in ("to-frame", "to-frame-dt") and cats[w].region is None:
+                # (with a region to_dataframe also bins the events, which must then lie inside it: check_frame's class)
+                st[w]["frame"] = cats[w].to_dataframe(with_datetime=(step == "to-frame-dt"))
+            elif step == "load-frame" and "frame" in st[w]:
+                verify(tag, w, CSEPCatalog.from_dataframe(st[w]["frame"]))
+        except Exception as e:
+            fails.append((f"{tag}: raised {type(e).__name__}: {e}", None))
+        for j in (0, 1):
+            try:
+                same = (same_events(events_of(cats[j]), refs[j]) and cats[j].name == specs[j]["name"]
+                        and (specs[j]["catalog_id"] is None or (is_int(cats[j].catalog_id)
+                                                               and int(cats[j].catalog_id) == specs[j]["catalog_id"])))
+            except Exception:
+                same = False
+            if not same:
+                fails.append((f"{tag}: afterwards the original catalog object {'AB'[j]} is no longer what it was", None))
+        if fails:
+            break
+    for key in ("ascii-path", "json-path"):
+        with contextlib.suppress(OSError):
+            os.unlink(slot[key])
+    ctx.n_events += sum(len(r) for r in refs)
+    ctx.run.case(dict(kind="session", steps=case["steps"], n=[len(r) for r in refs]), case_key(case))
+    ctx.run.count("format:session")
+    for _w, step in case["steps"]:
+        ctx.run.count("session:" + step)
+    report(ctx, case, fails)
 
 
 # ------------------------------------------------------------------------------------------------ malformed stream
@@ -1052,9 +1304,31 @@ def gen_catalog(rng, n, pool, force=None):
                 i = rng.randrange(n)
                 j = (i + 1) % n if kind == "adjacent" else rng.randrange(n)
                 events[j] = list(events[i])
+    if n >= 2 and rng.random() < 0.3:
+        # phase 2: events sharing an origin time to the millisecond but differing in everything else (doublets,
+        # aftershocks located by two networks): duplicated labels in the datetime index of to_dataframe(with_datetime=True)
+        kind = rng.choice(["head", "head", "middle", "all", "runs"])
+        if kind == "head":
+            for j in range(1, rng.randint(2, min(n, 4))):
+                events[j][1] = events[0][1]
+        elif kind == "middle":
+            i = rng.randrange(1, n)
+            events[rng.randrange(1, n)][1] = events[i][1]
+        elif kind == "all":
+            for e in events:
+                e[1] = events[0][1]
+        else:
+            for j in range(1, n):
+                if rng.random() < 0.5:
+                    events[j][1] = events[j - 1][1]
+    if n >= 1 and rng.random() < 0.08:
+        # phase 2: unreported depth (NaN) and infinite depths; direct oracle only (the model's floats are rationals)
+        for e in events:
+            if rng.random() < 0.5:
+                e[4] = float(rng.choice(["nan", "nan", "inf", "-inf"])).hex()
     spec = dict(events=events, catalog_id=gen_catalog_id(rng), name=rng.choice(NAMES), region=region)
-    if rng.random() < 0.35:
-        spec["data_kind"] = rng.choice(["lists", "mixed", "ndarray", "tuples"])
+    if rng.random() < 0.4:
+        spec["data_kind"] = rng.choice(["lists", "mixed", "ndarray", "ndarray-be", "tuples"])
     if "numpy-integer catalog_id through JSON" not in AWAITING_DECISION and spec["catalog_id"] is not None \
             and -2 ** 31 <= spec["catalog_id"] < 2 ** 31 and rng.random() < 0.15:
         spec["catalog_id_np"] = rng.choice(["int64", "int32", "uint64" if spec["catalog_id"] >= 0 else "int64"])
@@ -1081,6 +1355,8 @@ def _check_case(ctx, case):
         check_regiondict(ctx, case)
     elif fmt == "construct":
         check_construction(ctx, case)
+    elif kind == "session":
+        check_session(ctx, case)
     elif fmt in ("ascii", "ascii-noid"):
         check_ascii(ctx, case)
     elif fmt == "append":
@@ -1121,7 +1397,9 @@ def _check_catalog(ctx, spec, frame_opts, serial, prev, check_case):
     combos = [(True, True), (True, False), (False, True), (False, False)]
     todo = combos if not spec["events"] else [combos[serial % 4]]
     for hdr, emp in todo:
-        check_case(ctx, dict(kind="catalog", fmt="ascii", cat=spec, opts=dict(write_header=hdr, write_empty=emp)))
+        check_case(ctx, dict(kind="catalog", fmt="ascii", cat=spec,
+                             opts=dict(write_header=hdr, write_empty=emp, via=ASCII_VIAS[(serial // 2) % len(ASCII_VIAS)],
+                                       load_twice=bool(serial % 3 == 0))))
     if spec.get("data_kind"):
         check_case(ctx, dict(kind="catalog", fmt="construct", cat=spec))
     # round 4: the catalog array has no column of the name given as id_col
@@ -1184,9 +1462,28 @@ def run(run, rng, tier):
         for n in sizes:
             spec, fopts = gen_catalog(rng, n, pool)
             check_catalog(ctx, spec, fopts, serial, prev)
+            if prev is not None and serial % 4 == 1:
+                # phase 2: a session of two catalog objects (this one and the previous one)
+                steps = [[rng.randrange(2), rng.choice(SESSION_STEPS)] for _ in range(rng.randint(6, 14))]
+                zone = ZONES[serial % len(ZONES)]
+                check_case(ctx, dict(kind="session", fmt="session", cat=prev, cat2=spec, steps=steps,
+                                     **({"tz": zone} if zone is not None else {})))
             prev, serial = spec, serial + 1
             if serial % FLUSH_EVERY == 0:
                 ctx.flush()
+        # phase 2: catalogs with more than 2^16 events (three generated events tiled; direct oracle only)
+        for _ in range(1 if quick else 4):
+            spec, fopts = gen_catalog(rng, 3, pool)
+            spec["tile"] = 65536 + rng.choice([1, 2, 1000, 4465])
+            spec["region"] = None
+            spec.pop("data_kind", None)
+            for e in spec["events"]:
+                e[4] = (10.0).hex() if e[4] in ("nan", "inf", "-inf") else e[4]
+            for fmt, opts in (("ascii", dict(write_header=True, write_empty=True)), ("dict", None), ("json", dict(via="load_json")),
+                              ("frame", dict(with_region=False))):
+                check_case(ctx, dict(kind="catalog", fmt=fmt, cat=spec, **({"opts": opts} if opts else {})))
+            run.count("catalog with more than 2^16 events")
+        ctx.flush()
         while pool:                       # whatever is left of the phase sweep: full catalogs of 40
             spec, fopts = gen_catalog(rng, min(40, len(pool)), pool, force="phase")
             check_catalog(ctx, spec, fopts, serial, prev)
